@@ -27,7 +27,7 @@ Definition herm_complete (pairs : nat -> nat -> nat -> C) (i j f : nat) : C :=
 Definition pcsd_pairs (sd : sides) (normalize : bool) (N n : nat) (Fs : Q) (X : nat -> sig)
            (i j : nat) : nat -> C :=
   if j <=? i then
-    let q := fun f => cmul (X i f) (cconj (X j f)) in
+    let q := fun f => cmulf (X i f) (cconj (X j f)) in
     let v := match sd with
              | OneSided => assemble c0 (cscale 2) N q
              | TwoSided => q
